@@ -233,7 +233,7 @@ def r02_3(ctx):
         r.saw(tf["path"])
         t = expr_str(tf["body"])
         tc = C.role(ctx, "text_cleaner")
-        ok = tc is not None and ("%s(jsx_text.value)" % tc["name"]) in t and "if text.is_empty() None else Some(Call(" in t and "'createTextVNode'" in t and "value: text" in t
+        ok = tc is not None and ("%s(jsx_text.value)" % tc["name"]) in t and ("if text.is_empty() None else Some(Call(" in t or "!text.is_empty().then(|| Call(" in t or "if !text.is_empty() Some(Call(" in t) and "'createTextVNode'" in t and "value: text" in t
         r.ob("text child: cleaned; empty -> nothing; otherwise createTextVNode(<cleaned>)", ok, C.mloc(tf, tf), t[:160])
     return r
 
@@ -250,7 +250,7 @@ def rules(ctx):
 def _rules(ctx):
     from ..engine import only
     from . import c03
-    return [r02_1, r02_2, r02_3, r02_5,
+    return [__import__('vjsx.rules.c10', fromlist=['x']).field_ratchet('children lowering must not depend on visitor state'), r02_1, r02_2, r02_3, r02_5,
             only(c01.r01_1, lambda k: k.startswith(("component predicate", "the Fragment name")), "which hosts are components (Fragment / KeepAlive / elements receive child lists)"),
             only(c03.r03_1, lambda k: k.startswith(("the single-child arm", "several children", "no children", "any other single child")), "child-list arms of the dispatch (spread children are never a 'single child')"),
             c11.r11_3]
